@@ -59,7 +59,7 @@ def annotate(case, impl_lines):
         l = impl_lines[n] if n < len(impl_lines) else ""
         fs = op.split()
         toks = l.split()
-        if fs[0] in ("clear", "close", "closeset") and toks[:1] == ["blocked"]:
+        if fs[0] in ("clear", "close", "closeset", "clearset") and toks[:1] == ["blocked"]:
             pending.add(str(n))
         done = {t[5:] for t in toks if t.startswith("done:")}
         if fs[0] == "tok" and pending and not (pending & done):
@@ -70,7 +70,7 @@ def annotate(case, impl_lines):
             ev = {t.split(":")[3] for t in toks if t.startswith("evict:") or t.startswith("reject:")}
             ex = sorted({t[5:] for t in toks if t.startswith("exit:")} - ev)
             op = "tok sel " + (",".join(ex) if ex else "-")
-        if fs[0] == "closeset" and toks[:1] != ["blocked"]:
+        if fs[0] in ("closeset", "clearset") and toks[:1] != ["blocked"]:
             op = op + " pass"      # the restarted applier took the stop signal before the buffered item (Go's select)
         if fs[0] == "sweepit":
             first = [t.split(":")[1] for t in toks if t.startswith("rwset:")]
@@ -209,7 +209,11 @@ class Gen:
                 ops += [["clear"]] + [["tok"]] * (m + 2) + [["dump"], ["metrics"]] + ests()
                 pending_sets = 0
             else:
-                ops += [["updmax", max_cost + rng.randrange(0, 50)], ["max"]]
+                if len(hashes) <= 14 and rng.random() < 0.3:
+                    # the budget lowered, down to below the internal per-item cost (every newcomer is then too big)
+                    ops += [["updmax", rng.choice([1, self.item_size - 1, self.item_size, max_cost // 2])], ["max"]]
+                else:
+                    ops += [["updmax", max_cost + rng.randrange(0, 50)], ["max"]]
         # drain and final consistency observations
         ops += [["tok"]] * (pending_sets + 2) + [["wait"], ["dump"], ["rem"], ["metrics"], ["iter"]]
         if rng.random() < 0.5:
